@@ -405,6 +405,16 @@ class _rewrite_captured_vars(ast.NodeTransformer):
             or hasattr(rewritten_call.func.value, "_fields")
         ):
             rewritten_call.func = old_func
+            if isinstance(old_func, ast.Attribute):
+                # A method of a captured value (`cut.conjugate()`, `name.upper()`): the call
+                # stays a call, but the value it is made on is still frozen.
+                receiver = self.visit(copy.deepcopy(old_func.value))
+                if isinstance(receiver, ast.Constant) and isinstance(
+                    receiver.value, (str, int, float, bool, complex, bytes)
+                ):
+                    rewritten_call.func = ast.Attribute(
+                        value=receiver, attr=old_func.attr, ctx=ast.Load()
+                    )
 
         return rewritten_call
 
